@@ -14,7 +14,8 @@ PROP = "C11"
 EV_OP, EV_OP_RET, EV_HOOK_START, EV_HOOK_STOP, EV_CB, EV_LATE, EV_FAULT, EV_RES, EV_TIMEOUT, EV_NOTE = range(1, 11)
 (OP_CREATE, OP_THREADS_CREATE, OP_ATTACH_FIRST, OP_SENDERS_START, OP_SENDERS_STOP, OP_ARM_EVENTS,
  OP_SHUTDOWN_MAIN, OP_SHUTDOWN_EXT, OP_SHUTDOWN_POOL, OP_WAIT_MAIN, OP_WAIT_POOL, OP_DESTROY_MAIN, OP_DESTROY_POOL,
- OP_SLEEP_US, OP_GO, OP_JOIN_HELPERS, OP_THREADS_CREATE_AGAIN, OP_GATE, OP_FLOOD, OP_UNGATE, OP_WAIT_T0) = range(1, 22)
+ OP_SLEEP_US, OP_GO, OP_JOIN_HELPERS, OP_THREADS_CREATE_AGAIN, OP_GATE, OP_FLOOD, OP_UNGATE, OP_WAIT_T0,
+ OP_CLOSE_STDIN, OP_DETTACH) = range(1, 24)
 OPN = {v: k for k, v in list(globals().items()) if k.startswith("OP_")}
 FK = ["none", "calloc", "epoll_create1", "pipe2", "epoll_ctl", "pthread_create"]
 EBUSY, EDEADLK = 16, 35
@@ -147,6 +148,24 @@ def gen_histories(tier, seed):
             ops += [(OP_SHUTDOWN_EXT, 0), (OP_GO, 0), (OP_JOIN_HELPERS, 0)]
         ops += [(OP_UNGATE, 0), (OP_WAIT_MAIN, 1), (OP_DESTROY_MAIN, 0)]
         out.append(mk(rng, ops, family="shutdown-with-full-queue", **st))
+    # descriptor 0 is free when the pool is created (a daemon that closed stdin): the pool's first descriptor gets number 0
+    for i in range(3 * scale):
+        st = settings()
+        ops = [(OP_CLOSE_STDIN, 0), (OP_CREATE, 0)]
+        if i % 3:
+            ops += [(OP_THREADS_CREATE, 0), (OP_SLEEP_US, 300), (OP_SHUTDOWN_MAIN, 0), (OP_WAIT_MAIN, 1)]
+        ops += [(OP_DESTROY_MAIN, 0)]
+        out.append(mk(rng, ops, family="stdin-closed", **st))
+    # tp_thread_dettach() on a slot that has no thread in its event loop: reserved but never attached, or attached and left again
+    for i in range(4 * scale):
+        st = settings()
+        if i % 2 == 0:
+            ops = [(OP_CREATE, 0), (OP_THREADS_CREATE, 1), (OP_SLEEP_US, 300), (OP_DETTACH, 0), (OP_SHUTDOWN_MAIN, 0), (OP_WAIT_MAIN, 1),
+                   (OP_DESTROY_MAIN, 0)]
+        else:
+            ops = [(OP_CREATE, 0), (OP_THREADS_CREATE, 1), (OP_ATTACH_FIRST, 0), (OP_WAIT_T0, 0), (OP_SHUTDOWN_MAIN, 0), (OP_JOIN_HELPERS, 0),
+                   (OP_DETTACH, 0), (OP_WAIT_MAIN, 1), (OP_DESTROY_MAIN, 0)]
+        out.append(mk(rng, ops, family="dettach-idle-slot", **st))
     for i, sc in enumerate(out):
         sc["index"] = i
     return out
